@@ -229,7 +229,7 @@ def c_obs(res):
 def push_term(case, res, fn="chk12"):
     if "panic" not in res and "logs" not in res:
         return 3  # hang / crash / garbled: nothing to compare, no property can hold
-    return "(%s %s %d %s %s %s)" % (fn, c_comb(case), case["fuel"], c_items(case["items"]),
+    return "(%s %s %d%%nat %s %s %s)" % (fn, c_comb(case), case["fuel"], c_items(case["items"]),
                                     c_downs(case["downs"]), c_obs(res))
 
 
